@@ -662,6 +662,13 @@ func indexDischarged(fn *ssa.Function, blk *ssa.BasicBlock, base, index ssa.Valu
 				need := int64(-1)
 				if ic, ok := index.(*ssa.Const); ok && ic.Value != nil {
 					need = ic.Int64()
+					if kind == "slice" {
+						// a slice bound k is in range when len >= k, i.e. when index k-1 exists
+						need--
+						if need < 0 {
+							return true
+						}
+					}
 				} else if isLenMinusOne(index, base) {
 					need = 0
 				}
